@@ -390,7 +390,7 @@ func stripNot(e *expr) *expr {
 }
 
 func dbSched(r *simrt.Rand) simrt.Config {
-	cfg := simrt.Config{Seed: int64(r.Uint64() >> 1)}
+	cfg := simrt.Config{Seed: int64(r.Uint64() >> 1), ShuffleMaps: r.Bool(0.5)}
 	if r.Bool(0.3) {
 		cfg.Mode = "random"
 	} else {
